@@ -97,6 +97,7 @@ def tls_conn(draw, combos=None, max_records=12, max_len=2000, delivery=None, ep=
         spec["cert_len"] = draw(st.sampled_from([10, 300, 1200, 3000]))
         # the server's handshake flight as one byte stream cut into records of at most hs_frag bytes: messages fragmented across records
         # and records holding the end of one message and the start of the next (maximum fragment length 2^9..2^14, RFC 6066 / RFC 8449)
+        spec["client_auth"] = draw(st.sampled_from([False, False, False, True]))
         spec["hs_frag"] = draw(st.sampled_from([0, 0, 0, 512, 700, 2048, 16384]))
         if spec["hs_frag"]:
             spec["cert_len"] = draw(st.sampled_from([300, 1200, 3000, 9000, 17000]))
@@ -105,6 +106,7 @@ def tls_conn(draw, combos=None, max_records=12, max_len=2000, delivery=None, ep=
             spec["ccs13"] = draw(st.booleans())
             spec["pad13"] = draw(st.sampled_from([0, 0, 1, 7, 100]))
             spec["tickets"] = draw(st.integers(0, 2))
+            spec["sh13_exts"] = draw(st.integers(0, 4))
             if draw(st.integers(0, 3)) == 0:      # 0.5-RTT data
                 spec["half_rtt"] = draw(st.lists(st.tuples(st.integers(0, 300), st.integers(0, 3)).map(list), min_size=1, max_size=2))
         else:
